@@ -20,6 +20,12 @@ func tenth(r float64) (k int, exact bool) {
 	return k, r == float64(k)/10
 }
 
+// safeF is Score(i) for evidence samples only: a panic there must not take the harness down (the checks report it).
+func safeF(o probe.Obj, i int) float64 {
+	f, _ := probe.SafeScore(o, i)
+	return f
+}
+
 func fstr(f float64) string { return strconv.FormatFloat(f, 'g', -1, 64) }
 
 // styleFor picks the history style of sweep case i: mostly the cheap Set-in-order, every 16th another style.
@@ -184,7 +190,7 @@ func CheckC03(c *Ctx) {
 					v3Rescore(c, w, api, m, o, a, steps)
 				}
 				if i%1000003 == 0 {
-					w.Sample(map[string]any{"version": v.Name, "vector": v.Canonical(a), "base": o.Score(0), "temporal": o.Score(1), "environmental": o.Score(2)})
+					w.Sample(map[string]any{"version": v.Name, "vector": v.Canonical(a), "base": safeF(o, 0), "temporal": safeF(o, 1), "environmental": safeF(o, 2)})
 				}
 			})
 		}
@@ -276,7 +282,7 @@ func CheckC03(c *Ctx) {
 			}
 			w.Count("overlay-objects")
 			if i%500009 == 0 {
-				w.Sample(map[string]any{"version": v.Name, "vector": v.Canonical(a), "environmental": o.Score(2)})
+				w.Sample(map[string]any{"version": v.Name, "vector": v.Canonical(a), "environmental": safeF(o, 2)})
 			}
 		})
 		n := classes.count()
@@ -366,7 +372,7 @@ func CheckC05(c *Ctx) {
 			}
 		}
 		if i%7000003 == 0 {
-			w.Sample(map[string]any{"vector": v.Canonical(a), "base": o.Score(0), "temporal": o.Score(1), "environmental": o.Score(2), "oracle_env_tenths": r.Env.List()})
+			w.Sample(map[string]any{"vector": v.Canonical(a), "base": safeF(o, 0), "temporal": safeF(o, 1), "environmental": safeF(o, 2), "oracle_env_tenths": r.Env.List()})
 		}
 	}
 	// the complete space is cheap enough (~30 s on 16 cores) to be the every-change check
